@@ -685,6 +685,7 @@ func merge(a, b map[string]string) map[string]string {
 }
 
 var (
+	reDotted = regexp.MustCompile(`eu\.west\.svc-[a-z]|svc\.[a-z]`) // generated service names containing dots
 	reDigits = regexp.MustCompile(`[0-9]+`)
 	reQuoted = regexp.MustCompile(`"[^"]*"`)
 	reNames  = regexp.MustCompile(`\b(services|networks|volumes|secrets|configs)(\.|\[)[^. \]]+`)
@@ -693,6 +694,7 @@ var (
 
 func errClass(root string, err error) string {
 	m := strings.ReplaceAll(err.Error(), root, "")
+	m = reDotted.ReplaceAllString(m, "svc-z")
 	if i := strings.Index(m, "\n"); i > 0 {
 		m = m[:i]
 	}
